@@ -59,7 +59,7 @@ func (s *scope) add(name string, t *Ty) { s.vars = append(s.vars, svar{name, t})
 // sometimes some it does not need.
 func (g *gen) conv(t *Ty, x string) string {
 	s := g.tn(t)
-	need := t.Name == "" && (t.K == KPtr || t.K == KFunc || t.K == KChan && t.Dir == 1) || t.Opaque
+	need := t.Name == "" || t.Opaque
 	if need || g.chance(15, "convparen") {
 		if !need {
 			g.feat("paren_conv")
@@ -347,13 +347,13 @@ func (g *gen) lit(t *Ty, d int) string {
 		if e.literalable() && e.Name == "" && g.flip("elide") {
 			g.feat("elided_literal")
 			s := g.lit(e, d-1)
-			return s[strings.Index(s, "{"):]
+			return s[len(e.String()):]
 		}
 		if e.kind() == KPtr && e.Name == "" && e.Elem.literalable() && e.Elem.K != KTParam && g.flip("elideptr") {
 			g.feat("elided_literal")
 			s := g.lit(e.Elem, d-1)
 			if e.Elem.Name == "" {
-				return s[strings.Index(s, "{"):]
+				return s[len(e.Elem.String()):]
 			}
 			return "&" + s
 		}
